@@ -126,3 +126,7 @@ def cases(tier, seed, ctx=None):
     for j in range(3 if quick else 12):
         yield ("tlsraw", [b"POST /x HTTP/1.1\r\nContent-Length: 5\r\n\r\nhello", j % 2, 60, [], 1, 0, 0, rng.choice([15, 25, 35])], "raw-client-reconfigured-in-flight")
     # header lines that repeat a (name, value) pair are relayed as often as they were sent (C13) - placeholder: see gen_c13
+    # many connections open at the same time (clients that connect and stay silent), then a clear-text client and a TLS client: nobody
+    # is answered in clear text, the TLS client is served
+    for n in ((70,) if quick else (10, 70, 200)):
+        yield ("tls", [9, n], "many-connections-open")
